@@ -350,6 +350,8 @@ type histCase struct {
 	Zone     int   `json:"zone_kind"`
 	Seq      []int `json:"request_origins"`
 	HostOver bool  `json:"host_header_override"`
+	// EmptyHost: the request is built by hand (or by a redirect follow-up) with an empty Host field
+	EmptyHost bool `json:"empty_host_field,omitempty"`
 }
 
 func runHistory(hc histCase, host string) (key, what string) {
@@ -407,6 +409,10 @@ func runHistory(hc histCase, host string) (key, what string) {
 			req.Host = "virtual.example"
 			wantHost = "virtual.example"
 		}
+		if hc.EmptyHost {
+			req.Host = ""
+		}
+		urlBefore := req.URL.String()
 		w.mu.Lock()
 		nSeen, nDial := len(w.seen), len(w.dials)
 		w.mu.Unlock()
@@ -434,6 +440,9 @@ func runHistory(hc histCase, host string) (key, what string) {
 		}
 		if resp.Request != req {
 			return "resp-request-not-callers", tag + ": resp.Request is not the caller's request"
+		}
+		if req.URL.String() != urlBefore {
+			return "callers-request-modified", fmt.Sprintf("%s: the caller's request URL was changed to %s", tag, req.URL.String())
 		}
 		if len(newSeen) != 1 {
 			return "server-saw-wrong-number", fmt.Sprintf("%s: server saw %d requests", tag, len(newSeen))
@@ -505,9 +514,10 @@ func histories(r *ev.Run) {
 			if len(seq) == 0 {
 				return
 			}
-			cases = append(cases, histCase{z, slices.Clone(seq), false})
+			cases = append(cases, histCase{Zone: z, Seq: slices.Clone(seq)})
 			if len(seq) <= 2 {
-				cases = append(cases, histCase{z, slices.Clone(seq), true})
+				cases = append(cases, histCase{z, slices.Clone(seq), true, false})
+				cases = append(cases, histCase{z, slices.Clone(seq), false, true})
 			}
 		})
 	}
@@ -515,7 +525,7 @@ func histories(r *ev.Run) {
 	if !r.Thorough() {
 		for z := 1; z < 3; z++ {
 			for _, tri := range [][]int{{0, 2, 0}, {0, 4, 0}, {0, 1, 0}, {4, 0, 6}, {2, 6, 2}, {0, 6, 2}, {1, 5, 3}} {
-				cases = append(cases, histCase{z, tri, false})
+				cases = append(cases, histCase{Zone: z, Seq: tri})
 			}
 		}
 	}
@@ -555,7 +565,7 @@ func histories(r *ev.Run) {
 }
 
 func Run(r *ev.Run) {
-	r.Rule("part 1 (E1, exhaustive decision table): every set of 1..3 service-mode HTTPS records with distinct priorities over ALPN {none,[h3],[h2],[h3,h2],[http/1.1],[foo]} x no-default-alpn x {HTTP3Transport nil, set}: which round-tripper runs and which records reach the dialer (observed by dialing through the context-carried resolver, each record identified by a distinct port) vs a reference; part 2 (E4): every request history of length <=3 (thorough 4) over 8 origins {http,https} x {a.example,b.example (same address)} x {default port, 8443} x 3 zones {no HTTPS records, service records, alias to c.example with its own address}, with and without a Host override, through the real net/http client and Transport over in-memory TLS servers: plaintext never used, http upgraded iff HTTPS records exist, ServerName/SNI = the URL's host, Host header preserved, dial address/port, resp.Request identity, and no server connection shared between origins. distinct = distinct cases")
+	r.Rule("part 1 (E1, exhaustive decision table): every set of 1..3 service-mode HTTPS records with distinct priorities over ALPN {none,[h3],[h2],[h3,h2],[http/1.1],[foo]} x no-default-alpn x {HTTP3Transport nil, set}: which round-tripper runs and which records reach the dialer (observed by dialing through the context-carried resolver, each record identified by a distinct port) vs a reference; part 2 (E4): every request history of length <=3 (thorough 4) over 8 origins {http,https} x {a.example,b.example (same address)} x {default port, 8443} x 3 zones {no HTTPS records, service records, alias to c.example with its own address}, with a Host override / with an empty Host field / plain, through the real net/http client and Transport over in-memory TLS servers: plaintext never used, http upgraded iff HTTPS records exist, ServerName/SNI = the URL's host, Host header preserved, dial address/port, resp.Request identity, and no server connection shared between origins. distinct = distinct cases")
 	r.Assume("net/http and crypto/tls run goroutines outside any scheduler: a failing history is re-executed and reported only if it fails 5/5", "record sets with equal priorities are excluded (their relative order is unspecified)", "HTTP/3 itself is represented by a fake round-tripper that dials through the context-carried resolver")
 	muxOnce.Do(func() { dns.VerifRoundTripper = mux })
 	t0 := time.Now()
